@@ -174,7 +174,16 @@ def run_case(spec, export):
         if export in ("numpy", "pandas", "pickle"):
             if export == "pickle":
                 path = os.path.join(tmp, "m.pickle")
-                st, info = attempt(lambda: fx.export_mfa_to_pickle(mfa, path))
+                if len(spec["flows"]) % 2 == 1:
+                    # a plain file name, relative to the current working directory
+                    cwd = os.getcwd()
+                    os.chdir(tmp)
+                    try:
+                        st, info = attempt(lambda: fx.export_mfa_to_pickle(mfa, "m.pickle"))
+                    finally:
+                        os.chdir(cwd)
+                else:
+                    st, info = attempt(lambda: fx.export_mfa_to_pickle(mfa, path))
                 if st == "raised":
                     return fail("raised", f"raised {info}")
                 with open(path, "rb") as fh:
@@ -317,6 +326,52 @@ def specs(tier, seed=0):
 # ---- to_dfs -----------------------------------------------------------------------------------------
 
 
+def run_large_case(export):
+    """a system whose one flow and one stock have more than 32767 entries (40 x 30 x 30; no dimension is long)"""
+    import flodym
+    from flodym import Dimension, DimensionSet, FlodymArray
+    from flodym import export as fx
+
+    case = dict(kind="large", export=export)
+
+    def fail(what):
+        return "fail", dict(case=case, tags=dict(kind="large", export=export), what=f"system with a 40 x 30 x 30 flow and stock, export {export}: {what}")
+
+    ds = DimensionSet(dim_list=[Dimension(name="Time", letter="t", items=list(range(2000, 2040)), dtype=int), Dimension(name="Product", letter="p", items=[f"p{i}" for i in range(30)], dtype=str), Dimension(name="Quality", letter="q", items=[f"q{i}" for i in range(30)], dtype=str)])
+    v = np.arange(float(40 * 30 * 30)).reshape(40, 30, 30) * 0.25 + 1.0
+    procs = flodym.make_processes(["sysenv", "use"])
+    flow = flodym.Flow(from_process=procs["sysenv"], to_process=procs["use"], name="sysenv => use", dims=ds, values=v.copy())
+    stock = flodym.SimpleFlowDrivenStock(dims=ds, name="in use", process=procs["use"], stock=flodym.StockArray(dims=ds, values=v.copy() + 0.125))
+    mfa = flodym.MFASystem(dims=ds, parameters={}, processes=procs, flows={flow.name: flow}, stocks={"in use": stock})
+    tmp = tempfile.mkdtemp(prefix="c19L_", dir="/dev/shm" if os.path.isdir("/dev/shm") else None)
+    try:
+        if export == "pandas":
+            st, d = attempt(lambda: fx.convert_to_dict(mfa, "pandas"))
+            if st == "raised":
+                return fail(f"raised {d}")
+            frames = {"flow": d["flows"]["sysenv => use"], "stock": d["stocks"]["in use"]}
+        else:
+            st, info = attempt(lambda: (fx.export_mfa_flows_to_csv(mfa, tmp), fx.export_mfa_stocks_to_csv(mfa, tmp)))
+            if st == "raised":
+                return fail(f"raised {info}")
+            files = sorted(os.listdir(tmp))
+            if len(files) != 2:
+                return fail(f"files {files}")
+            frames = {}
+            for fn in files:
+                frames["stock" if "stock" in fn else "flow"] = pd.read_csv(os.path.join(tmp, fn), float_precision="round_trip")
+        for what, want in (("flow", v), ("stock", v + 0.125)):
+            st, back = attempt(lambda: FlodymArray.from_df(dims=ds, df=frames[what]))
+            if st == "raised":
+                return fail(f"the exported {what} cannot be read back: {back}")
+            if not np.array_equal(back.values, want):
+                bad = np.argwhere(back.values != want)
+                return fail(f"the exported {what} reads back with {len(bad)} entries under wrong labels, first {tuple(int(i) for i in bad[0])}: {back.values[tuple(bad[0])]!r} instead of {want[tuple(bad[0])]!r}")
+    finally:
+        shutil.rmtree(tmp, ignore_errors=True)
+    return "export-faithful", None
+
+
 def run_todfs_case(k):
     import flodym
     from flodym import DimensionDefinition, FlowDefinition, MFADefinition, ParameterDefinition, StockDefinition
@@ -376,6 +431,7 @@ def units(tier, seed):
     for i in range(0, len(sp), 12):
         out.append(dict(kind="systems", lo=i, hi=i + 12, tier=tier, seed=seed))
     out.append(dict(kind="to_dfs"))
+    out.append(dict(kind="large"))
     return out
 
 
@@ -395,6 +451,10 @@ def run_unit(u):
         for k in range(24):
             rec(*run_todfs_case(k))
         return res
+    if u["kind"] == "large":
+        for ex in ("pandas", "csv"):
+            rec(*run_large_case(ex))
+        return res
     sp = list(specs(u["tier"], u.get("seed", 0)))[u["lo"] : u["hi"]]
     for spec in sp:
         for ex in EXPORTS:
@@ -407,6 +467,8 @@ def run_unit(u):
 def replay(case):
     if case["kind"] == "to_dfs":
         oc, f = run_todfs_case(case["k"])
+    elif case["kind"] == "large":
+        oc, f = run_large_case(case["export"])
     else:
         oc, f = run_case(case["spec"], case["export"])
     return [f] if f else []
